@@ -164,6 +164,10 @@ def run(ctx):
                 continue
             val = None
             for bb, c in p.conds:
+                hl = shared.header_lookup_atom(facts, c)
+                if hl is not None and hl[0] == name:
+                    val = hl[1]
+                    continue
                 if c and c[0] == "scalar" and isinstance(c[2], bool):
                     v, neg = c[1], False
                     while v[0] == "unop" and v[1] == "Not":
